@@ -41,6 +41,27 @@ func (in *Interp) newAtom(fam, key string) *Atom {
 	return a
 }
 
+func zeroCid() Value { return Value{K: KStruct, R: []Value{mkStr("")}} }
+
+func (in *Interp) cidFromText(s Value) Value {
+	if at, tag, ok := singleAtom(s); ok && at.Fam == "cid" && (tag == "str" || tag == "b58") {
+		return tuple(cidOf(at), nilErr)
+	}
+	return tuple(zeroCid(), in.newErr("invalid cid", Value{}))
+}
+
+func (in *Interp) cidFromBytes(b Value) Value {
+	if b.R != nil {
+		cells := b.R.(*SliceV).S
+		if len(cells) == 1 && cells[0].K == KOpaque {
+			if ob, ok := cells[0].R.(*OpaqueBytes); ok && ob.A != nil && ob.A.Fam == "cid" && ob.Tag == "bin" {
+				return tuple(cidOf(ob.A), nilErr)
+			}
+		}
+	}
+	return tuple(zeroCid(), in.newErr("invalid cid bytes", Value{}))
+}
+
 func cidOf(a *Atom) Value { return Value{K: KStruct, R: []Value{atomStr(a, "bin")}} }
 
 func cidAtom(v Value) (*Atom, bool) {
@@ -102,17 +123,12 @@ func (in *Interp) bytesCompare(x, y Value) Value {
 		lt := c.Cmp(smt.OpULt, ax.RankOf(in, "bin"), ay.RankOf(in, "bin"))
 		return mkSymInt(c.Ite(lt, c.BV(^uint64(0), 64), c.BV(1, 64)))
 	}
-	// opaque vs plain: only the comparison with the empty string is defined
-	plain := y
-	sign := uint64(1)
+	// opaque vs plain bytes: every opaque value (a real key, digest, ...) is ordered after every plain byte
+	// string (a fixed, consistent choice; only its consistency matters to the callers, which sort by it)
 	if oy {
-		plain, sign = x, ^uint64(0)
+		return mkInt(^uint64(0), 64)
 	}
-	if plain.R == nil || len(plain.R.(*SliceV).S) == 0 {
-		return mkInt(sign, 64)
-	}
-	unsupported("bytes.Compare of an opaque value with plain bytes")
-	return Value{}
+	return mkInt(1, 64)
 }
 
 // gatePassed records the order in which goroutines that went through vx.Gate enter their next critical section.
@@ -254,9 +270,43 @@ func init() {
 		"(github.com/ipfs/go-cid.Cid).Encode": func(in *Interp, fr *Frame, a []Value) (Value, bool) {
 			at, ok := cidAtom(a[0])
 			if !ok {
+				if s, _ := a[0].R.([]Value)[0].ConcStr(); s == "" {
+					return mkStr("z"), true // cid.Undef: the bare multibase prefix of an empty byte string
+				}
 				unsupported("Encode of non-atom cid")
 			}
 			return atomStr(at, "b58"), true
+		},
+		"(github.com/ipfs/go-cid.Cid).Bytes": func(in *Interp, fr *Frame, a []Value) (Value, bool) {
+			at, ok := cidAtom(a[0])
+			if !ok {
+				return Value{K: KSlice, R: &SliceV{S: []Value{}}}, true // cid.Undef has no bytes
+			}
+			return Value{K: KSlice, R: &SliceV{S: []Value{{K: KOpaque, R: &OpaqueBytes{A: at, Tag: "bin"}}}}}, true
+		},
+		// Decode/Parse/Cast are the inverses of String/Encode/Bytes on identifiers handed out by the store
+		// (atoms); every other text or byte string is "not a CID" and yields an error (go-cid's own parsing of
+		// malformed input is outside the claim).
+		"github.com/ipfs/go-cid.Decode": func(in *Interp, fr *Frame, a []Value) (Value, bool) {
+			return in.cidFromText(a[0]), true
+		},
+		"github.com/ipfs/go-cid.Cast": func(in *Interp, fr *Frame, a []Value) (Value, bool) {
+			return in.cidFromBytes(a[0]), true
+		},
+		"github.com/ipfs/go-cid.Parse": func(in *Interp, fr *Frame, a []Value) (Value, bool) {
+			if a[0].R == nil {
+				return tuple(zeroCid(), in.newErr("can't parse nil as Cid", Value{})), true
+			}
+			iv := a[0].R.(*IfaceV)
+			switch iv.V.K {
+			case KStr:
+				return in.cidFromText(iv.V), true
+			case KSlice:
+				return in.cidFromBytes(iv.V), true
+			case KStruct:
+				return tuple(iv.V, nilErr), true
+			}
+			return tuple(zeroCid(), in.newErr("can't parse as Cid", Value{})), true
 		},
 		"github.com/multiformats/go-multibase.NewEncoder": func(in *Interp, fr *Frame, a []Value) (Value, bool) {
 			return tuple(Value{K: KStruct, R: []Value{a[0], {K: KIface}}}, nilErr), true
